@@ -123,18 +123,65 @@ pub fn quiet_panics() {
     std::panic::set_hook(Box::new(|_| {}));
 }
 
+/// Holds a subject object and *leaks* it instead of dropping it while the thread is
+/// unwinding. After a subject panic the shared state may be poisoned, and the subject's own
+/// destructors (`Writer::drop`: `lock().expect("not poisoned")`) would then panic during
+/// cleanup, which aborts the whole process instead of yielding a verdict.
+pub struct LeakOnUnwind<T>(std::mem::ManuallyDrop<T>);
+
+impl<T> LeakOnUnwind<T> {
+    pub fn new(t: T) -> Self {
+        LeakOnUnwind(std::mem::ManuallyDrop::new(t))
+    }
+    /// Leaks the value deliberately (after the subject panicked).
+    pub fn leak(self) {
+        std::mem::forget(self);
+    }
+}
+
+impl<T> std::ops::Deref for LeakOnUnwind<T> {
+    type Target = T;
+    fn deref(&self) -> &T {
+        &self.0
+    }
+}
+
+impl<T> std::ops::DerefMut for LeakOnUnwind<T> {
+    fn deref_mut(&mut self) -> &mut T {
+        &mut self.0
+    }
+}
+
+impl<T> Drop for LeakOnUnwind<T> {
+    fn drop(&mut self) {
+        if !std::thread::panicking() {
+            unsafe { std::mem::ManuallyDrop::drop(&mut self.0) }
+        }
+    }
+}
+
 pub struct Poller {
-    pub body: Pin<Box<SBody>>,
+    pub body: LeakOnUnwind<Pin<Box<SBody>>>,
     pub wk: Arc<CountWaker>,
     waker: Waker,
     pub dead: bool,
+}
+
+impl Drop for Poller {
+    fn drop(&mut self) {
+        if self.dead {
+            // the body panicked: do not run its destructors
+            let b = std::mem::replace(&mut self.body, LeakOnUnwind::new(Box::pin(SBody::empty())));
+            b.leak();
+        }
+    }
 }
 
 impl Poller {
     pub fn new(body: SBody) -> Poller {
         let wk = Arc::new(CountWaker(AtomicUsize::new(0)));
         Poller {
-            body: Box::pin(body),
+            body: LeakOnUnwind::new(Box::pin(body)),
             waker: Waker::from(wk.clone()),
             wk,
             dead: false,
